@@ -632,7 +632,13 @@ def check_consume(prog, ctx):
     rid = "R09.3"
     f = prog.func("symmray.fermionic_core:FermionicArray.phase_sync")
     whiles = [n for n in walk_own(f.node) if isinstance(n, ast.While)]
-    ctx.need(len(whiles) == 1, "phase_sync: expected one while loop over the sign table")
+    if len(whiles) != 1:
+        # the shape rule reads the drain loop of phase_sync; written another way, what phase_sync does is decided by R09.6 (evaluation)
+        ctx.notes.append("R09.3: phase_sync is not written as one while loop over the sign table; its behaviour is decided by R09.6, the "
+                         "who-may-consume inventory below still applies")
+        ctx.ok(rid, f"{f.file}:{f.qualname}", "shape rule not applicable to this form of phase_sync; decided by R09.6")
+        _consume_inventory(prog, ctx, rid)
+        return
     w = whiles[0]
     table = src(w.test)
     pops = [n for n in ast.walk(w) if isinstance(n, ast.Assign) and isinstance(n.value, ast.Call)
@@ -658,6 +664,11 @@ def check_consume(prog, ctx):
     trys = [n for n in ast.walk(w) if isinstance(n, ast.Try)]
     ctx.check(all(len(t.handlers) == 1 and src(t.handlers[0].type) == "KeyError" for t in trys), rid, f, w, "handlers",
               "only a missing block (KeyError) is tolerated")
+    _consume_inventory(prog, ctx, rid)
+    ctx.minimum(rid, 4, "phase_sync shape")
+
+
+def _consume_inventory(prog, ctx, rid):
     # who-may-consume inventory: negation of a block value conditioned on a sign-table read
     n_sites = 0
     for g in prog.funcs.values():
@@ -674,7 +685,6 @@ def check_consume(prog, ctx):
                     is_aware = isinstance(n, ast.IfExp) and g.name.startswith("to_")
                     ctx.check(is_aware, rid, g, n, src(n)[:120],
                               "sign applied on the fly only by an export routine (phase-aware reader), never written back")
-    ctx.minimum(rid, 4, "phase_sync shape")
 
 
 def check_rebuild(prog, ctx):
@@ -808,6 +818,11 @@ def run(prog, ctx):
     from rules.sem_lazy import check_lazy_equivalence
 
     ntwins, reached = check_lazy_equivalence(prog, ctx)
+    ctx.rule("R09.6", "abstract evaluation of phase_sync itself: exactly the blocks with a pending -1 are negated, once; the table is emptied; a "
+             "sign on an absent sector is tolerated; the operand is left alone unless in place; synchronising twice is synchronising once")
+    from rules.sem_lazy import check_sync_semantics
+
+    check_sync_semantics(prog, ctx)
     for q, why in sorted(RAW_OK.items()):
         ctx.fact(f"{q}: {why}")
     for q, why in sorted(DECOMP_OK.items()):
